@@ -167,7 +167,15 @@ func (d *DKG) StoreDeal(participant string, deal *dkg.Deal) {
 
 func (d *DKG) ProcessDeals() ([]*dkg.Response, error) {
 	responses := make([]*dkg.Response, 0)
-	for _, deal := range d.deals {
+	// in a fixed order: every response is signed with the next nonce of the round's deterministic
+	// stream, so a replay of the operation log must sign the same responses in the same order
+	dealers := make([]string, 0, len(d.deals))
+	for addr := range d.deals {
+		dealers = append(dealers, addr)
+	}
+	sort.Strings(dealers)
+	for _, addr := range dealers {
+		deal := d.deals[addr]
 		if deal.Index == uint32(d.ParticipantID) {
 			continue
 		}
